@@ -9,4 +9,4 @@ ASSUMPTIONS = vh_c02.ASSUMPTIONS[:4] + [
 ]
 SPLIT = {"par2": [("_none", "not fa and not fb"), ("_a", "fa and not fb")],
          "map_items": [("_ok", "failing == -1")]}
-scn.register(globals(), {"C11", "C09"}, ["seq_chain", "two_execs", "start_routes", "par2", "par_pass_task", "map_items"], SPLIT)
+scn.register(globals(), {"C11", "C09"}, ["seq_chain", "seq_misc", "two_execs", "start_routes", "par2", "par_pass_task", "map_items"], SPLIT)
